@@ -1,7 +1,7 @@
 """BlockNtfns family: C11 (each subscriber sees every block event once, in
 order, from its start; slow / cancelling subscribers do not affect others;
 closed after Cancel / Stop)."""
-import json, os, random, shutil, sys, time
+import gc, json, os, random, re, shutil, subprocess, sys, time
 from .. import core, family
 
 SPEC = os.path.join(core.VERIF, "specs", "BlockNtfns")
@@ -28,7 +28,9 @@ MANIFEST = {
              "load, more events than the 41 buffered slots) are recorded at linearisation points. TLC evaluates "
              "the Props operators on every observed trace: prefix of backlog ++ later events, complete at "
              "quiescence for every subscriber that reads, nothing after Cancel/Stop, closed after Cancel/Stop, no "
-             "call ever blocks.",
+             "call ever blocks. Two NewSubscription calls in flight together are replayed deterministically "
+             "(Subscribe2) and occur in half of the free runs. All driver work runs in child processes; a panic "
+             "in the manager's code becomes the step Crash=panic of the item in progress and is judged by Props.",
         note="Bounded: 2-3 subscribers (each subscribes once), <=3-5 bursts in the replay graph, <=3 events in the "
              "interleaving model; free runs 2-4 subscribers and up to 150 events. The source is scripted (backlog = "
              "heights h+1..tip, none for h=0, error above the tip, as blockManager's); a source that closes its "
@@ -88,6 +90,9 @@ def label(act):
     op = act.get("op", "?")
     if op == "Subscribe":
         s = "Subscribe(s%d,h%d,k%d)" % (act.get("s", 0), act.get("h", 0), act.get("k", 0))
+    elif op == "Subscribe2":
+        s = "Subscribe2(s%d,h%d,s%d,h%d,k%d)" % (act.get("s", 0), act.get("h", 0), act.get("s2", 0),
+                                                 act.get("h2", 0), act.get("k", 0))
     elif op == "Emit":
         s = "Emit(%d)" % act.get("k", 0)
     elif op == "Read":
@@ -102,15 +107,20 @@ def label(act):
 
 
 def run(prop_id, tier, seed, replay=None):
+    """Memory is kept flat: graphs are dropped once their paths are written, and
+    the drivers' output is streamed through drift + TLC judging in chunks."""
     t0 = time.time()
     rng = random.Random(seed)
     sc = core.scratch("bn")
     try:
-        pf = os.path.join(sc, "paths.ndjson")
         extra = {}
+        acc = _Acc(prop_id)
+        graphs = []          # light summaries
         if replay:
+            pf = os.path.join(sc, "paths.ndjson")
             family.paths_from_replay(replay, pf)
-            tlc, g, paths, unreach = family._NoTLC(), None, [0], 0
+            tlc = family._NoTLC()
+            pfs = [pf]
         else:
             # 1. design level: every interleaving of the fine-grained model
             fconsts = dict(FINE[tier]); fconsts.update(CODE_VERSION)
@@ -118,7 +128,7 @@ def run(prop_id, tier, seed, replay=None):
             if CODE_VERSION.get("FixQuitGap"):
                 inv.append("NoViolation")
             fine = core.run_tlc([SPEC], "BlockNtfns", fconsts, export=False, workers=8, invariants=inv,
-                                workdir=os.path.join(sc, "tlc-fine"), timeout=3000, heap="12g")
+                                workdir=os.path.join(sc, "tlc-fine"), timeout=3000, heap="6g")
             if not fine.ok:
                 raise core.MachineryError("TLC on BlockNtfns (interleaving model) failed: %s\n%s" % (
                     fine.error, fine.stdout_tail[-3000:]))
@@ -127,90 +137,92 @@ def run(prop_id, tier, seed, replay=None):
                                            "states_generated": fine.generated, "depth": fine.depth,
                                            "wall_s": round(fine.wall, 1), "invariants": inv}
             # 2. replay graphs
-            graphs = []
+            runs, pfs = [fine], []
             for ci, rc_ in enumerate(REPLAY[tier]):
                 consts = dict(rc_); consts.update(CODE_VERSION)
                 t = core.run_tlc([SPEC], "BlockNtfns", consts, workers=1, invariants=["TypeOK", "NoViolation"],
-                                 workdir=os.path.join(sc, "tlc%d" % ci), timeout=3000, heap="12g")
+                                 workdir=os.path.join(sc, "tlc%d" % ci), timeout=3000, heap="6g")
                 if not t.ok:
                     raise core.MachineryError("TLC on BlockNtfns (replay graph %s) failed: %s\n%s" % (
                         consts, t.error, t.stdout_tail[-3000:]))
                 gi = core.Graph.load(t)
+                shutil.rmtree(os.path.join(sc, "tlc%d" % ci), ignore_errors=True)
                 pi, ui = core.edge_cover(gi, rng)
                 if WALKS[tier] and ci == 0:
                     pi += core.random_walks(gi, WALKS[tier], 14, rng)
                 pfi = os.path.join(sc, "paths%d.ndjson" % ci)
                 core.write_paths(gi, pi, pfi)
-                shutil.rmtree(os.path.join(sc, "tlc%d" % ci), ignore_errors=True)
-                graphs.append(dict(consts=consts, tlc=t, g=gi, paths=pi, unreach=ui, pf=pfi))
-            tlc, g, paths = _Agg([fine] + [x["tlc"] for x in graphs]), _AggGraph([x["g"] for x in graphs]), \
-                [p for x in graphs for p in x["paths"]]
-            extra["replay_graphs"] = [dict(config=x["consts"], states=x["tlc"].distinct, edges=len(x["g"].edges),
-                                           paths=len(x["paths"]), tlc_wall_s=round(x["tlc"].wall, 1),
-                                           edges_only_reachable_through_model_violation=x["unreach"])
-                                      for x in graphs]
-            pfs = [x["pf"] for x in graphs]
+                graphs.append(dict(config=consts, states=t.distinct, edges=len(gi.edges),
+                                   violating_edges=sum(1 for e in gi.edges if e[4]), paths=len(pi),
+                                   tlc_wall_s=round(t.wall, 1), edges_only_reachable_through_model_violation=ui))
+                runs.append(t)
+                pfs.append(pfi)
+                del gi, pi
+                gc.collect()
+            tlc = _Agg(runs)
+            extra["replay_graphs"] = graphs
         tp = time.time()
         binary = family.build_overlay_test(PKG, [DRIVER], os.path.join(sc, "blockntfns.test"))
-        observed, dr = [], [0, 0, []]
-        for ci, pfi in enumerate([pf] if replay else pfs):
-            obs_i, log = family.run_driver(binary, "TestVerifBlockNtfnsReplay", pfi,
-                                           os.path.join(sc, "obs%d.ndjson" % ci), sc)
-            n_all = len(obs_i)
-            obs_i = [t for t in obs_i if not (t.get("info") or "").startswith("not executed")]
-            if len(obs_i) < n_all:
-                extra["paths_not_executed_after_many_deviations"] = \
-                    extra.get("paths_not_executed_after_many_deviations", 0) + n_all - len(obs_i)
-            d = family.drift(pfi, obs_i, label=label)
-            dr = [dr[0] + d[0], dr[1] + d[1], (dr[2] + d[2])[:5]]
-            for t in obs_i:
-                t["id"] = "g%d-%d" % (ci, t["id"])
-            observed += obs_i
-        dr = tuple(dr)
-        free = []
+        for ci, pfi in enumerate(pfs):
+            ofn = os.path.join(sc, "obs%d.ndjson" % ci)
+            run_driver(binary, "TestVerifBlockNtfnsReplay", pfi, ofn, sc, {})
+            acc.consume(ofn, "g%d-" % ci, pfi)
+            os.remove(ofn)
+        n_replayed = acc.n_traces
         if not replay:
             fc = FREE[tier]
-            free, flog = family.run_driver(binary, "TestVerifBlockNtfnsFree", pfs[0], os.path.join(sc, "free.ndjson"), sc,
-                                           env_extra={"VERIF_SEED": str(seed), "VERIF_FREE_RUNS": str(fc["runs"]),
-                                                      "VERIF_FREE_MIN_EVENTS": str(fc["min_events"]),
-                                                      "VERIF_FREE_MAX_EVENTS": str(fc["max_events"])})
-            for t in free:
-                t["id"] = "free-%d" % t["id"]
-            extra["free_running"] = {
-                "runs": len(free), "steps": sum(len(t["steps"]) for t in free),
-                "max_events": max([t["steps"][-1]["obs"]["emitted"] for t in free if t["steps"]] or [0]),
-                "runs_with_stop": sum(1 for t in free if any(s["act"]["op"] == "Stop" for s in t["steps"])),
-                "runs_with_cancel": sum(1 for t in free if any(s["act"]["op"] == "Cancel" for s in t["steps"])),
-                "runs_overflowing_41_slots": sum(1 for t in free if overflowed(t)),
-                "quiesced": sum(1 for t in free if t["steps"] and t["steps"][-1]["act"]["op"] == "Quiesce"),
-            }
+            ofn = os.path.join(sc, "free.ndjson")
+            run_driver(binary, "TestVerifBlockNtfnsFree", pfs[0], ofn, sc,
+                       {"VERIF_SEED": str(seed), "VERIF_FREE_RUNS": str(fc["runs"]),
+                        "VERIF_FREE_MIN_EVENTS": str(fc["min_events"]), "VERIF_FREE_MAX_EVENTS": str(fc["max_events"])})
+            fs = _FreeStats()
+            acc.consume(ofn, "free-", None, fs)
+            os.remove(ofn)
+            extra["free_running"] = fs.summary()
             stc = STRESS[tier]
             ts = time.time()
-            stress, slog = family.run_driver(binary, "TestVerifBlockNtfnsFree", pfs[0], os.path.join(sc, "stress.ndjson"),
-                                             sc, env_extra={"VERIF_SEED": str(seed), "VERIF_FREE_RUNS": str(stc["runs"]),
-                                                            "VERIF_FREE_MIN_EVENTS": str(stc["min_events"]),
-                                                            "VERIF_FREE_MAX_EVENTS": str(stc["max_events"]),
-                                                            "VERIF_FREE_PROFILE": "stop",
-                                                            "VERIF_FREE_SCREEN": str(stc["screen"])})
-            for t in stress:
-                t["id"] = "stop-%d" % t["id"]
+            ofn = os.path.join(sc, "stress.ndjson")
+            run_driver(binary, "TestVerifBlockNtfnsFree", pfs[0], ofn, sc,
+                       {"VERIF_SEED": str(seed), "VERIF_FREE_RUNS": str(stc["runs"]),
+                        "VERIF_FREE_MIN_EVENTS": str(stc["min_events"]), "VERIF_FREE_MAX_EVENTS": str(stc["max_events"]),
+                        "VERIF_FREE_PROFILE": "stop", "VERIF_FREE_SCREEN": str(stc["screen"])})
+            n0 = acc.n_traces
+            acc.consume(ofn, "stop-", None)
+            os.remove(ofn)
             extra["stop_under_load"] = {
-                "runs_executed": stc["runs"], "runs_judged_by_tlc": len(stress),
+                "runs_executed": stc["runs"], "runs_judged_by_tlc": acc.n_traces - n0,
                 "screen": "every %d-th run, plus every run with a non-consecutive receive sequence, a blocked "
                           "call, no quiescence or a driver error" % stc["screen"],
                 "wall_s": round(time.time() - ts, 1)}
-            free += stress
-        extra["phase_wall_s"] = {"model": round(tp - t0, 1), "drivers": round(time.time() - tp, 1)}
-        tj = time.time()
-        verdict = judge_all(prop_id, observed + free)
-        extra["phase_wall_s"]["judge"] = round(time.time() - tj, 1)
+        extra["phase_wall_s"] = {"model": round(tp - t0, 1), "drivers_and_judging": round(time.time() - tp, 1),
+                                 "judge": round(acc.judge_wall, 1)}
+        if acc.not_executed:
+            extra["paths_not_executed_after_many_deviations"] = acc.not_executed
+        if acc.crashes:
+            extra["panics_of_the_code_under_test"] = acc.crashes
+        if acc.stopped_early:
+            extra["judging_stopped_early"] = True
         if os.environ.get("VERIF_VERBOSE"):
             print("phases", extra["phase_wall_s"], file=sys.stderr)
-        rc = family.finish(prop_id, tier, seed, t0, tlc, g, paths, observed + free, verdict, dr, extra,
-                           ASSUMPTIONS, label=label)
-        return rc
+        verdict = {"violations": acc.violations, "known": acc.known_seen, "n_lines": acc.n_lines,
+                   "wall": acc.judge_wall, "raw": acc.raw}
+        g = _LightGraph(sum(x["edges"] for x in graphs), sum(x["violating_edges"] for x in graphs)) if graphs else None
+        return family.finish(prop_id, tier, seed, t0, tlc, g, range(sum(x["paths"] for x in graphs) if graphs else 1),
+                             acc.light, verdict, (acc.d_steps, acc.d_paths, acc.d_samples), extra,
+                             ASSUMPTIONS, label=label)
     finally:
         shutil.rmtree(sc, ignore_errors=True)
+
+
+def run_driver(binary, test, pf, out, sc, env_extra):
+    """family.run_driver without loading the output into memory."""
+    env = core.go_env()
+    env.update({"VERIF_PATHS": pf, "VERIF_OUT": out, "VERIF_SCRATCH": sc})
+    env.update(env_extra)
+    p = subprocess.run([binary, "-test.run", "^" + test + "$", "-test.count=1", "-test.timeout", "7200s"],
+                       cwd=sc, env=env, stdout=subprocess.PIPE, stderr=subprocess.STDOUT, text=True)
+    if p.returncode != 0 or not os.path.exists(out):
+        raise core.MachineryError("driver failed rc=%d:\n%s" % (p.returncode, p.stdout[-6000:]))
 
 
 class _Agg:
@@ -221,9 +233,150 @@ class _Agg:
         self.wall = sum(r.wall for r in runs)
 
 
-class _AggGraph:
-    def __init__(self, gs):
-        self.edges = [e for g in gs for e in g.edges]
+class _LightGraph:
+    """What family.finish reads of a graph: len(edges) and edge[4] (violating)."""
+    def __init__(self, n, nviol):
+        self.edges = _Edges(n, nviol)
+
+
+class _Edges:
+    def __init__(self, n, nviol):
+        self.n, self.nviol = n, nviol
+
+    def __len__(self):
+        return self.n
+
+    def __iter__(self):
+        for i in range(self.n):
+            yield (0, None, 0, None, i < self.nviol)
+
+
+class _Acc:
+    """Streams driver output: drift against the model's prediction, TLC judging
+    in chunks, light bookkeeping for the evidence file."""
+    def __init__(self, prop_id, max_lines=60000):
+        self.prop_id, self.max_lines = prop_id, max_lines
+        self.known = core.load_known()
+        self.violations, self.known_seen = [], {}
+        self.n_lines = self.raw = self.n_traces = 0
+        self.judge_wall = 0.0
+        self.d_steps = self.d_paths = 0
+        self.d_samples = []
+        self.light = []
+        self.not_executed = self.crashes = 0
+        self.stopped_early = False
+
+    def consume(self, fn, prefix, paths_file, stats=None):
+        offs = {}
+        pfh = None
+        if paths_file:
+            pfh = open(paths_file, "rb")
+            pos = 0
+            for line in pfh:
+                m = re.match(rb'\{"id": ?(\d+)', line)
+                offs[int(m.group(1))] = pos
+                pos += len(line)
+        chunk, n = [], 0
+        for line in open(fn):
+            t = json.loads(line)
+            if (t.get("info") or "").startswith("not executed"):
+                self.not_executed += 1
+                continue
+            if pfh is not None and not t.get("error") and t["id"] in offs:
+                pfh.seek(offs[t["id"]])
+                self.drift_one(json.loads(pfh.readline()), t, prefix)
+            t["id"] = prefix + str(t["id"])
+            if t["steps"] and t["steps"][-1]["act"]["op"] == "Crash":
+                self.crashes += 1
+            if stats:
+                stats.add(t)
+            self.n_traces += 1
+            lt = {"steps": range(len(t["steps"]))}
+            if t.get("error"):
+                lt["error"] = t["error"]
+            if len(self.light) < 3:
+                lt = {"steps": [{"act": s["act"], "obs": s["obs"]} for s in t["steps"]], "init_obs": t.get("init_obs")}
+                if t.get("error"):
+                    lt["error"] = t["error"]
+            self.light.append(lt)
+            if t.get("error"):
+                continue
+            chunk.append(t)
+            n += len(t["steps"]) + 1
+            if n >= self.max_lines:
+                self.judge(chunk)
+                chunk, n = [], 0
+        if chunk:
+            self.judge(chunk)
+        if pfh:
+            pfh.close()
+
+    def judge(self, part):
+        if len(self.violations) >= 10:
+            # the verdict is in; further chunks would only add examples
+            self.stopped_early = True
+            return
+        v = family.judge([SPEC], "BlockNtfnsProps", PROPS[self.prop_id], self.prop_id, part, label=label,
+                         known=self.known)
+        self.violations += v["violations"]
+        for k, e in v["known"].items():
+            if k in self.known_seen:
+                self.known_seen[k]["count"] += e["count"]
+            else:
+                self.known_seen[k] = e
+        self.n_lines += v["n_lines"]
+        self.judge_wall += v["wall"]
+        self.raw += v["raw"]
+
+    def drift_one(self, e, t, prefix):
+        """Same comparison as family.drift, for one path."""
+        if e.get("init_obs") is not None and t.get("init_obs") != e["init_obs"]:
+            self.d_paths += 1
+            if len(self.d_samples) < 5:
+                self.d_samples.append({"trace": prefix + str(t["id"]), "step": 0, "what": "initial observables differ",
+                                       "model": e["init_obs"], "code": t.get("init_obs")})
+            return
+        for i, s in enumerate(t["steps"]):
+            if i >= len(e["steps"]):
+                # a step the model path does not have (Crash)
+                self.d_paths += 1
+                if len(self.d_samples) < 5:
+                    self.d_samples.append({"trace": prefix + str(t["id"]), "step": i + 1,
+                                           "what": "extra step " + label(s["act"])})
+                return
+            m = e["steps"][i]
+            self.d_steps += 1
+            if s["act"] != m["act"] or s["obs"] != m["obs"]:
+                self.d_paths += 1
+                if len(self.d_samples) < 5:
+                    self.d_samples.append({"trace": prefix + str(t["id"]), "step": i + 1,
+                                           "labels": [label(x["act"]) for x in t["steps"][:i + 1]],
+                                           "model_act": m["act"], "code_act": s["act"],
+                                           "model_obs": m["obs"], "code_obs": s["obs"]})
+                return
+
+
+class _FreeStats:
+    def __init__(self):
+        self.runs = self.steps = self.max_events = self.stop = self.cancel = self.over = self.quiesced = 0
+        self.overlap = 0
+
+    def add(self, t):
+        self.runs += 1
+        self.steps += len(t["steps"])
+        if t["steps"]:
+            self.max_events = max(self.max_events, t["steps"][-1]["obs"]["emitted"])
+            self.quiesced += t["steps"][-1]["act"]["op"] == "Quiesce"
+        self.stop += any(s["act"]["op"] == "Stop" for s in t["steps"])
+        self.cancel += any(s["act"]["op"] == "Cancel" for s in t["steps"])
+        self.over += overflowed(t)
+        ops = [s["act"]["op"] for s in t["steps"]]
+        self.overlap += any(ops[i] == "Subscribe" and ops[i + 1] == "Subscribe" for i in range(len(ops) - 1))
+
+    def summary(self):
+        return {"runs": self.runs, "steps": self.steps, "max_events": self.max_events, "runs_with_stop": self.stop,
+                "runs_with_cancel": self.cancel, "runs_overflowing_41_slots": self.over,
+                "runs_with_back_to_back_registrations": self.overlap, "quiesced": self.quiesced}
 
 
 def overflowed(t):
@@ -234,41 +387,11 @@ def overflowed(t):
         a, o = s["act"], s["obs"]
         if a["op"] == "Subscribe" and a["res"] == "ok":
             reg[a["s"]] = (a["h"], a["k"])
+        if a["op"] == "Subscribe2" and a["res"] == "ok":
+            reg[a["s"]] = (a["h"], a["k"])
+            reg[a["s2"]] = (a["h2"], a["k"])
         for sid, (h, k) in reg.items():
             owed = (k - h if h and h < k else 0) + max(0, o["emitted"] - k)
             if o["sub"][sid - 1] == 1 and owed - len(o["recv"][sid - 1]) > 41:
                 return True
     return False
-
-
-def judge_all(prop_id, traces, max_lines=60000):
-    """ObsCheck in chunks of at most max_lines trace lines (free-running
-    traces are long; one JVM per chunk)."""
-    known = core.load_known()
-    total = {"violations": [], "known": {}, "n_lines": 0, "wall": 0.0, "raw": 0}
-    chunks, cur, n = [], [], 0
-    for t in traces:
-        ln = len(t["steps"]) + 1
-        if cur and n + ln > max_lines:
-            chunks.append(cur)
-            cur, n = [], 0
-        cur.append(t)
-        n += ln
-    if cur:
-        chunks.append(cur)
-    for part in chunks:
-        v = family.judge([SPEC], "BlockNtfnsProps", PROPS[prop_id], prop_id, part, label=label, known=known)
-        total["violations"] += v["violations"]
-        for k, e in v["known"].items():
-            if k in total["known"]:
-                total["known"][k]["count"] += e["count"]
-            else:
-                total["known"][k] = e
-        total["n_lines"] += v["n_lines"]
-        total["wall"] += v["wall"]
-        total["raw"] += v["raw"]
-        if len(total["violations"]) >= 10:
-            # the verdict is in; the remaining chunks would only add examples
-            total["judging_stopped_early"] = True
-            break
-    return total
